@@ -253,7 +253,109 @@ def _pair(site: partial.Site) -> Optional[str]:
     return None
 
 
+def d6_always_acts(chk: Check) -> None:
+    """Every path through the handling of one gathered item removes
+    something, recurses, raises, or is excused by a failed presence /
+    bounds test on the item's own coordinates; and a bounds guard never
+    rejects a valid index."""
+    from sa.flow import Flow
+    from sa.peval import Const, PEval
+    prog = chk.prog
+    chk.rule("C04-D6", "every matched item is acted upon on every path "
+             "(delete / recurse / refuse), unless its own coordinates fail "
+             "the presence or bounds test", floor=1)
+    chk.rule("C04-D7", "the bounds guard of a list deletion accepts every "
+             "valid index (-len <= i < len) and rejects i >= len", floor=1)
+    dn = prog.func("Processor._delete_nodes")
+    loop = [n for n in dn.node.body if isinstance(n, ast.For)][0]
+    item = src(loop.target)
+    roles: Dict[str, str] = {}
+    for n in walk_local(loop):
+        if isinstance(n, ast.Assign) and isinstance(n.value, ast.Attribute) \
+                and src(n.value.value) == item:
+            roles[n.value.attr] = src(n.targets[0])
+    par, ref = roles["parent"], roles["parentref"]
+
+    def is_presence(test: ast.AST) -> bool:
+        t = src(test).replace(" ", "")
+        return t == "{}in{}".format(ref, par) or (
+            "len({})".format(par) in t and ref in t and
+            isinstance(test, ast.Compare))
+
+    def transfer(stmt: ast.stmt, st, flow):
+        acted, excused = st
+        for n in walk_local(stmt):
+            if isinstance(n, ast.Call) and \
+                    src(n.func).endswith("._delete_nodes"):
+                acted = True
+            if isinstance(n, ast.Subscript) and \
+                    isinstance(n.ctx, ast.Del) and \
+                    (src(n.value) == par or
+                     src(n.value).startswith(par + ".")):
+                acted = True
+            if isinstance(n, ast.Call) and \
+                    isinstance(n.func, ast.Attribute) and \
+                    src(n.func.value) == par and \
+                    n.func.attr in ("discard", "remove", "pop"):
+                acted = True
+        return [(acted, excused)]
+
+    def branch(test: ast.AST, st, flow):
+        acted, excused = st
+        if is_presence(test):
+            return [st], [(acted, True)]
+        if isinstance(test, ast.BoolOp) and isinstance(test.op, ast.And) \
+                and any(is_presence(v) for v in test.values):
+            return [st], [(acted, True)]
+        return [st], [st]
+    flow = Flow(transfer, branch)
+    out = flow.run(loop.body, [(False, False)])
+    ends = set(out.fall) | set(out.continues)
+    bad = [s for s in ends if not s[0] and not s[1]]
+    if bad:
+        chk.fail("C04-D6", dn, loop, "per-item handling",
+                 "some path through the handling of a gathered node neither "
+                 "deletes, recurses nor refuses although its coordinates "
+                 "are present: the matched node silently survives")
+    else:
+        chk.ok("C04-D6", dn, loop, "per-item handling",
+               "{} end states, all acted or excused by a failed presence "
+               "test".format(len(ends)))
+    # D7: the list bounds guard
+    pe = PEval()
+    found = False
+    for n in walk_local(loop):
+        if isinstance(n, ast.If) and isinstance(n.test, ast.Compare) and \
+                "len({})".format(par) in src(n.test) and ref in src(n.test) \
+                and any(isinstance(x, ast.Subscript) and
+                        isinstance(x.ctx, ast.Del) for s in n.body
+                        for x in ast.walk(s)):
+            found = True
+            problems = []
+            for ln in range(0, 5):
+                for i in range(-ln, ln + 3):
+                    t = pe.truth(n.test, {"len({})".format(par): Const(ln),
+                                          ref: Const(i)})
+                    valid = -ln <= i < ln
+                    if valid and t is not True:
+                        problems.append("len={} index={} rejected".format(
+                            ln, i))
+                    if i >= ln and t is not False:
+                        problems.append("len={} index={} accepted".format(
+                            ln, i))
+            if problems:
+                chk.fail("C04-D7", dn, n, "if " + src(n.test),
+                         "bounds guard is wrong for: " + ", ".join(
+                             problems[:4]))
+            else:
+                chk.ok("C04-D7", dn, n, "if " + src(n.test),
+                       "evaluated for len 0..4 and every index -len..len+2")
+    if not found:
+        raise AnalysisError("list deletion guard not found")
+
+
 def run(chk: Check) -> None:
     d1_d2(chk)
     d3_d4(chk)
     d5_partial(chk)
+    d6_always_acts(chk)
